@@ -67,6 +67,23 @@ MISSED = {
  'C04/r5-change1': 'num_epochs up to 33 over small datasets (the epoch-derived count for large N * num_epochs / batch_size)',
  'C09/r5-change1': 'the toy experiment state carries a weakly typed device scalar and a float16 array whose product keeps its dtype only while the scalar stays weakly typed (also asserted directly in C16 state_roundtrip)',
  'C10/r5-change1': 'aggregator histories over bfloat16 client trees; the cross-process check first runs an unrelated float32 aggregator round in the original process',
+ 'C05/r5-change1': 'ModelEvaluator is also built under the pmap backend (3 devices, 2 clients: one padding client) when all batches of the case have one size (C02 caught the change as it stood)',
+ 'C06/r5-change1': 'new check domain_counts_low_precision_loss: bfloat16 per-example loss, several hundred rows of one domain per padded batch',
+ 'C06/r5-change2': 'a real example with an infinite loss (infinite target): the average loss is +inf padded or not',
+ 'C11/r5-change2': 'new check explicit_thresholds: the documented v_min / v_max arguments, narrower or wider than the data',
+ 'C12/r5-change1': 'a third of the relation histories first try a round from the current state with the cohort reversed and throw it away',
+ 'C12/r5-change2': 'the MimeLite relation also with a clip bound that no update reaches (C07 caught the change as it stood: zero tree clipped to NaN)',
+ 'C13/r5-change1': 'the dataset under the Get sampler can fail once in the middle of a bulk read; the retried sample() is still the same round',
+ 'C15/r5-change1': 'clients list the same feature set in different key orders',
+ 'C15/r5-change2': 'two seeded shuffled_clients streams of ONE dataset object pulled in turn',
+ 'C16/r5-change1': 'other reads (get_client, client_size, num_clients, client_ids) inside an open client_sizes() / clients() walk of the same object',
+ 'C16/r5-change2': 'a database from an earlier build already sits at the output path: the builder refuses it or replaces it, stale clients never survive',
+ 'C17/r5-change1': 'HypCluster histories also on the pmap backend (clients are yielded in another order than listed)',
+ 'C18/r5-change1': 'trees that hold the very same array object at two positions (tied weights)',
+ 'C18/r5-change2': 'integer-typed leaves',
+ 'C19/r5-change1': 'filesystem model: the cache directory is on another filesystem than everything outside it, shutil.move into it is an interruptible copy',
+ 'C19/r5-change2': 'a 5xx answer carries an error page with its own content-length instead of the payload',
+ 'C20/r5-change2': 'train_loss row independence with synthetic predictions scaled / shifted per row',
  'C18/r3-change1': 'the 7- and 8-factor (length, block) pairs, left out on compile cost, are executed op by op under jax.disable_jit()',
 }
 # Filed changes that the checks do not detect ON PURPOSE: the input they need lies
@@ -74,6 +91,7 @@ MISSED = {
 # would also flag code in which the property holds.
 NOT_CLAIMED = {
  'C02/r5-change2': 'needs clients whose batch shapes are uniform inside every pmap block but differ between blocks; which clients share a block is decided by the backend (sorted by batch count), so the only domain a caller controls -- and the one the checks generate -- is one batch shape for all clients of a call',
+ 'C10/r5-change2': 'needs the clients of a round handed to FederatedAlgorithm.apply as a fedjax.RepeatableIterator that is then passed again; apply() documents its clients as a Sequence (the samplers return lists), and every algorithm iterates them several times',
  'C06/r4-change2': 'needs a per-example loss of shape [n, 1]; fedjax.grad documents the per-example loss as "a vector of loss values for each example in the batch", and a masked sum that broadcasts instead of flattening is correct for every vector-shaped loss',
 }
 for k, why in NOT_CLAIMED.items():
